@@ -75,6 +75,7 @@ type Sim struct {
 	drainN    int
 
 	watchdogMS int
+	loopback   string
 	inStep     bool
 	crash      *crasher
 
@@ -349,6 +350,12 @@ func (s *Sim) exec(st stepRef) {
 					}
 				}
 			}
+		}
+		if op.K == "AddEndpoint" && op.Addr == "LOOPBACK" {
+			if s.loopback == "" {
+				break
+			}
+			op.Addr = s.loopback
 		}
 		if op.K == "ImportBad" {
 			// a corrupt upload: garbage, an empty file, or a capture cut inside a packet record
